@@ -96,7 +96,7 @@ theorem error_reply_frames (text rest : Bytes) :
 /-- Bulk replies carry arbitrary bytes (CR/LF, NUL …) and frame by length. -/
 theorem bulk_reply_frames (b rest : Bytes) (hlen : b.length ≤ 9223372036854775807) :
     parseBytes (ser (.bulk b) ++ rest) = .ok (.bulk b) rest :=
-  C20.roundtrip (.bulk b) (by simp [wf, hlen]) rest
+  C20.roundtrip (.bulk b) (by simp [wf, hlen]) (by simp [Frame.depth]) rest
 
 /-- A whole reply stream of well-formed frames parses back, under any segmentation on the client
     side, to exactly those frames: `n` requests ⇒ the client reads `n` replies. -/
